@@ -188,6 +188,9 @@ func cmdCheck(args []string) int {
 	if fr := structuralFrozenObligations(P, C); fr != nil {
 		results = append(results, fr)
 	}
+	if fr := structuralFunctionObligations(P, C); fr != nil {
+		results = append(results, fr)
+	}
 	solveAll(exs, results, cfg)
 
 	// classify
